@@ -145,6 +145,9 @@ func refineOrder(v *vk.Verdict, src, gotext string) *vk.Verdict {
 	if v == nil || (v.Class != "stdout-differs" && v.Class != "panic-differs" && v.Class != "exit-differs") {
 		return v
 	}
+	if xcl.HasConstRuneString(src) {
+		return &vk.Verdict{Class: "const-string-of-rune-folded-wrong", Detail: v.Class + ": " + v.Detail}
+	}
 	a, b := varOrder(src), varOrder(gotext)
 	if len(a) == len(b) && strings.Join(a, ",") != strings.Join(b, ",") {
 		return &vk.Verdict{Class: "package-var-emitted-out-of-order", Detail: fmt.Sprintf("declared %v, emitted %v; %s", a, b, v.Detail)}
